@@ -40,6 +40,7 @@ TABLE = {
  "a requirement with a malformed version is ignored regardless of line order": ("C20", "requirements lines ['p==notaversion', 'p==1.0'] selected 'notaversion' while ['p==1.0', 'p==notaversion'] selected 1.0"),
  "the Jupyter kernel drops an invalid shell message instead of shutting down": ("C19", "request sequence [execute_request signed with a wrong key, kernel_info_request]: the forged request shut the session down and the valid request got no reply"),
  "exceptions in trigger functions are logged with the script's traceback (new subsystem)": ("C18", "new subsystem: 1/0 three calls below an @event_trigger function was logged by custom_components.pyscript.function as 'run_coro: got exception' with an eval.py frame, not on the script's logger with hello.py frames"),
+ "a deleted file of an app or module triggers the documented dependent reloads": ("C10", "delete apps/app1/sib.py (imported by apps/app1/__init__.py) + default reload: app1 was not reloaded and kept the stale sibling; delete modules/m1.py: its importers were not reloaded; reload(global_ctx='apps.app1') after deleting the sibling left the context apps.app1.sib loaded"),
 }
 log = subprocess.run(["git", "-C", "/repo", "log", "--reverse", "--format=%h %s"], capture_output=True, text=True).stdout.strip().split("\n")
 fixed = []
